@@ -326,14 +326,71 @@ def has_key(prop):
     return {"C13": "full", "C19": "full", "C14": "tax", "C15": "open", "C20": "jp"}[prop]
 
 
+def _tx(cls, type_, day, amt, price=2, sec=43200, a1=11, a2=0, fee=0):
+    return {"cls": cls, "type": type_, "t": day * 86400 + sec, "off": 0, "a1": a1, "a2": a2, "amt": amt, "fee": fee, "price": price, "ffee": 0,
+            "vin": -1, "vwf": -1, "vout": -1, "vfee": -1, "par": 0}
+
+
+def rowmap_job(scen, rnd):
+    """a scenario of spec/MC_RowMap.tla as a real input: per asset `off` leading blank rows, lots hidden by the from-date or not, one sale"""
+    assets, blanks = {}, {}
+    for k, s in enumerate(scen):
+        name = f"B{k + 1}"
+        h = [_tx("in", "buy", (100 if (j + 1) in s["hidden"] else 300) + j, 1, price=j + 1) for j in range(s["nlots"])]
+        h.sort(key=lambda x: x["t"])
+        h.append(_tx("out", "sell", 400, s["nlots"], price=3))
+        assets[name] = h
+        blanks[name] = [s["off"], 1, 0, 0]
+    job = make_job(assets, "us", rnd, shape="none", method="fifo", perm=False)
+    job["args"]["from"] = 200
+    job["conc"]["sheet"]["blanks_by_asset"] = blanks
+    job["tag"] = "rowmap:" + json.dumps(scen, sort_keys=True)
+    return job
+
+
+def jpgen_job(scen, rnd):
+    """a scenario of spec/MC_JpGen.tla as a real input: per asset years with an acquisition / a disposal"""
+    from datetime import date  # pylint: disable=import-outside-toplevel
+
+    assets = {}
+    for k, s in enumerate(scen):
+        h = []
+        first = min(s["buy"] + s["sell"])
+        for y in sorted(s["buy"]):
+            h.append(_tx("in", "buy", (date(y, 1, 15) - BASE_DATE).days, len(s["sell"]) + 1 if y == first else 1))
+        for y in sorted(s["sell"]):
+            h.append(_tx("out", "sell", (date(y, 6, 15) - BASE_DATE).days, 1, price=3))
+        assets[f"B{k + 1}"] = h      # (in table order: acquisitions first, as the generator meets them)
+    job = make_job(assets, "jp", rnd, shape="none", lang=rnd.choice(["en", "kl"]), perm=False)
+    job["tag"] = "jpgen:" + json.dumps(scen, sort_keys=True)
+    return job
+
+
+def design_scenarios(module, cfg_text, tagchar):
+    cfg = os.path.join(common.scratch(), f"{module}_emit.cfg")
+    with open(cfg, "w", encoding="utf-8") as f:
+        f.write(cfg_text)
+    rc, out = tlc.run_tlc(module + ".tla", cfg, workers=common.NCPU, tag=module + "emit", heap="4g", timeout=1800)
+    res = []
+    for line in out.splitlines():
+        line = line.strip()
+        if line.startswith(f'"{tagchar}|'):
+            res.append(json.loads(line[3:-1].replace('\\"', '"')))
+    if tlc.tlc_failed(rc, "\n".join(l for l in out.splitlines() if not l.startswith(f'"{tagchar}|'))) or not res:
+        raise common.MachineryError(f"scenario generation from {module} failed (rc={rc}): " + out[-1500:])
+    gen_, dist = tlc.parse_stats(out)
+    return res, dist, gen_
+
+
 def model_check_design(prop):
     """the stateful generators as designs (spec/MC_RowMap.tla, spec/MC_JpGen.tla), checked exhaustively"""
     res = []
-    for module, props in (("MC_RowMap", ("C19",)), ("MC_JpGen", ("C20",))):
-        if prop not in props or not os.path.exists(os.path.join(common.SPEC, module + ".tla")):
+    for module, props, control in (("MC_RowMap", ("C19",), "MC_RowMap_shared.cfg"), ("MC_JpGen", ("C20",), "MC_JpGen_first_seen.cfg")):
+        if prop not in props:
             continue
         cfg = os.path.join(common.SPEC, module + ".cfg")
         rc, out = tlc.run_tlc(module + ".tla", cfg, workers=common.NCPU, extra=["-coverage", "1"], tag=module, heap="4g", timeout=1800)
+        out = "\n".join(l for l in out.splitlines() if not l.startswith(('"M|', '"J|')))
         gen_, dist = tlc.parse_stats(out)
         r = {"module": module, "states": dist, "transitions": gen_}
         if "is violated" in out:
@@ -341,6 +398,11 @@ def model_check_design(prop):
             r["counterexample"] = "\n".join(l for l in out.split("The coverage statistics")[0].splitlines() if "CostModel" not in l)[-5000:]
         elif tlc.tlc_failed(rc, out.replace("CostModel lookup failed", "")) or dist == 0:
             raise common.MachineryError(f"model checking {module} failed (rc={rc}):\n" + "\n".join(l for l in out.splitlines() if "CostModel" not in l)[-3000:])
+        # sensitivity control: the design that the property forbids must be refuted by the same invariant
+        rc2, out2 = tlc.run_tlc(module + ".tla", os.path.join(common.SPEC, control), workers=common.NCPU, tag=module + "ctl", heap="4g", timeout=1800)
+        r["forbidden_design_refuted"] = "is violated" in out2
+        if not r["forbidden_design_refuted"]:
+            raise common.MachineryError(f"vacuity: {module} accepts the forbidden design ({control})")
         res.append(r)
     return res
 
@@ -359,6 +421,17 @@ def run(prop, tier):
             violations.append({"kind": "design", "what": r["violation"], "replay": path})
             printed.append(f"VIOLATION property={prop} replay={path}")
     jobs, genstats = plan_jobs(prop, tier, rnd)
+    q = tier == "quick"
+    if prop == "C19":
+        scens, dist, trans = design_scenarios("MC_RowMap", f'CONSTANTS NAssets = {2 if q else 3} Design = "per_asset"\nINIT Init\nNEXT Next\nINVARIANT Emit\nCHECK_DEADLOCK FALSE\n', "M")
+        jobs += [rowmap_job(s, rnd) for s in scens]
+        genstats.append({"module": "MC_RowMap", "scenarios_replayed": len(scens), "exhaustive": True, "states": dist, "transitions": trans})
+    if prop == "C20":
+        s1, d1, t1 = design_scenarios("MC_JpGen", 'CONSTANTS NAssets = 1 Design = "sorted"\nINIT Init\nNEXT Next\nINVARIANT Emit\nCHECK_DEADLOCK FALSE\n', "J")
+        s2, d2, t2 = design_scenarios("MC_JpGen", 'CONSTANTS NAssets = 2 Design = "sorted"\nINIT Init\nNEXT Next\nINVARIANT Emit\nCHECK_DEADLOCK FALSE\n', "J")
+        s2 = rnd.sample(s2, min(len(s2), 60 if q else 1500))
+        jobs += [jpgen_job(s, rnd) for s in s1 + s2]
+        genstats.append({"module": "MC_JpGen", "scenarios_replayed": len(s1) + len(s2), "one_asset_scenarios_exhaustive": len(s1), "states": d1 + d2, "transitions": t1 + t2})
     states += sum(g["states"] for g in genstats)
     transitions += sum(g["transitions"] for g in genstats)
     print(f"[{timer.s():.0f}s] {len(jobs)} end-to-end runs planned", file=sys.stderr)
